@@ -35,6 +35,7 @@ type ModVer struct {
 	Version string
 	Pkgs    []Pkg
 	Deps    map[string]string // module path -> version (its module.cue)
+	Default map[string]bool   // module path -> marked default: true
 }
 
 type Case struct {
@@ -107,6 +108,10 @@ func lastElem(imp string) string {
 }
 
 func modFileText(path string, deps map[string]string, perm int) string {
+	return modFileTextD(path, deps, nil, perm)
+}
+
+func modFileTextD(path string, deps map[string]string, def map[string]bool, perm int) string {
 	var sb strings.Builder
 	fmt.Fprintf(&sb, "module: %q\nlanguage: version: \"v0.9.0\"\n", path)
 	var ks []string
@@ -120,13 +125,17 @@ func modFileText(path string, deps map[string]string, perm int) string {
 		}
 	}
 	for _, k := range ks {
-		fmt.Fprintf(&sb, "deps: %q: v: %q\n", k, deps[k])
+		if def[k] {
+			fmt.Fprintf(&sb, "deps: %q: {v: %q, default: true}\n", k, deps[k])
+		} else {
+			fmt.Fprintf(&sb, "deps: %q: v: %q\n", k, deps[k])
+		}
 	}
 	return sb.String()
 }
 
 func (r *registry) fs(m *ModVer) fstest.MapFS {
-	f := fstest.MapFS{"cue.mod/module.cue": {Data: []byte(modFileText(m.Path, m.Deps, r.perm))}}
+	f := fstest.MapFS{"cue.mod/module.cue": {Data: []byte(modFileTextD(m.Path, m.Deps, m.Default, r.perm))}}
 	for _, p := range m.Pkgs {
 		f[p.Name+"/x.cue"] = &fstest.MapFile{Data: []byte(pkgFile(p, r.perm))}
 	}
@@ -153,7 +162,7 @@ func (r *registry) ModFile(ctx context.Context, m module.Version) (*modfile.File
 	if mv == nil {
 		return nil, fmt.Errorf("module %v: %w", m, modregistry.ErrNotFound)
 	}
-	return modfile.Parse([]byte(modFileText(mv.Path, mv.Deps, r.perm)), "cue.mod/module.cue")
+	return modfile.Parse([]byte(modFileTextD(mv.Path, mv.Deps, mv.Default, r.perm)), "cue.mod/module.cue")
 }
 
 func (r *registry) ModuleVersions(ctx context.Context, mpath string) ([]string, error) {
@@ -220,14 +229,40 @@ func findMod(c Case, path, ver string) *ModVer {
 	return nil
 }
 
-// resolve maps an import path to (module path, package dir).
-func resolve(c Case, imp string) (string, string, bool) {
-	imp, _, _ = strings.Cut(imp, "@")
+// resolve maps an import path to (module path, package dir). An import without a major version is
+// resolved in the context of the importing module: its only listed major of that module, or the
+// one its module file marks as default; from (the single-major bases of) the main module: the only major.
+func resolve(c Case, imp string, from *ModVer) (string, string, bool) {
+	path, major, hasMajor := strings.Cut(imp, "@")
 	for _, m := range c.Mods {
-		base, _, _ := strings.Cut(m.Path, "@")
-		if strings.HasPrefix(imp, base+"/") {
-			return m.Path, strings.TrimPrefix(imp, base+"/"), true
+		base, mmajor, _ := strings.Cut(m.Path, "@")
+		if !strings.HasPrefix(path, base+"/") {
+			continue
 		}
+		dir := strings.TrimPrefix(path, base+"/")
+		if hasMajor {
+			if mmajor == major {
+				return m.Path, dir, true
+			}
+			continue
+		}
+		if from != nil {
+			var listed []string
+			for dp := range from.Deps {
+				if b, _, _ := strings.Cut(dp, "@"); b == base {
+					listed = append(listed, dp)
+				}
+			}
+			if len(listed) == 1 {
+				return listed[0], dir, true
+			}
+			for _, dp := range listed {
+				if from.Default[dp] {
+					return dp, dir, true
+				}
+			}
+		}
+		return m.Path, dir, true // main module: bases imported without major have a single major
 	}
 	return "", "", false
 }
@@ -269,11 +304,11 @@ func run(c Case) (res evid.Result) {
 	}
 	// (a)+(b): the needed set computed on T's own versions
 	needed := map[string]bool{}
-	var visit func(imps []string, from string) string
+	var visit func(imps []string, from string, fromMod *ModVer) string
 	seenPkg := map[string]bool{}
-	visit = func(imps []string, from string) string {
+	visit = func(imps []string, from string, fromMod *ModVer) string {
 		for _, im := range imps {
-			mp, dir, ok := resolve(c, im)
+			mp, dir, ok := resolve(c, im, fromMod)
 			if !ok {
 				return fmt.Sprintf("import %q of %s resolves to no module", im, from)
 			}
@@ -292,7 +327,7 @@ func run(c Case) (res evid.Result) {
 			seenPkg[mp+"/"+dir] = true
 			for _, p := range mv.Pkgs {
 				if p.Name == dir {
-					if bad := visit(p.Imports, mp+"@"+ver+"/"+dir); bad != "" {
+					if bad := visit(p.Imports, mp+"@"+ver+"/"+dir, mv); bad != "" {
 						return bad
 					}
 				}
@@ -301,7 +336,7 @@ func run(c Case) (res evid.Result) {
 		return ""
 	}
 	for _, p := range c.MainPkgs {
-		if bad := visit(p.Imports, "main/"+p.Name); bad != "" {
+		if bad := visit(p.Imports, "main/"+p.Name, nil); bad != "" {
 			res.Fail = bad + "\ntidied:\n" + text + describe()
 			return
 		}
@@ -399,51 +434,91 @@ func run(c Case) (res evid.Result) {
 func gen(t *rapid.T) Case {
 	nm := rapid.IntRange(1, 6).Draw(t, "nmods")
 	c := Case{MainDeps: map[string]string{}, Perm: rapid.IntRange(0, 100).Draw(t, "perm"), Delay: rapid.IntRange(0, 50).Draw(t, "delay")}
-	type mv struct {
+	type major struct {
+		path string
 		vers []string
 		pkgs []string
 	}
-	mods := make([]mv, nm)
+	// module i has major v0 and, sometimes, also major v1
+	mods := make([][]major, nm)
 	for i := range mods {
 		n := rapid.IntRange(1, 3).Draw(t, "nvers")
 		off := rapid.IntRange(0, len(versions)-n).Draw(t, "voff")
-		mods[i].vers = versions[off : off+n]
-		mods[i].pkgs = []string{"p0", "p1"}[:rapid.IntRange(1, 2).Draw(t, "npkgs")]
+		mods[i] = append(mods[i], major{modPath(i), versions[off : off+n], []string{"p0", "p1"}[:rapid.IntRange(1, 2).Draw(t, "npkgs")]})
+		if rapid.IntRange(0, 3).Draw(t, "twomajors") == 0 {
+			mods[i] = append(mods[i], major{fmt.Sprintf("ex.com/m%d@v1", i), []string{"v1.0.0", "v1.1.0"}[:rapid.IntRange(1, 2).Draw(t, "nv1")], []string{"p0", "p1"}[:rapid.IntRange(1, 2).Draw(t, "npkgs1")]})
+		}
 	}
-	withMajor := func() bool { return rapid.IntRange(0, 4).Draw(t, "major") > 0 }
 	// modules import only modules with a higher index (acyclic)
 	for i := range mods {
-		for _, v := range mods[i].vers {
-			m := ModVer{Path: modPath(i), Version: v, Deps: map[string]string{}}
-			for _, pn := range mods[i].pkgs {
-				p := Pkg{Name: pn}
-				for j := i + 1; j < nm; j++ {
-					if rapid.IntRange(0, 2).Draw(t, "imp") == 0 {
-						p.Imports = append(p.Imports, importPath(modPath(j), rapid.SampledFrom(mods[j].pkgs).Draw(t, "ipkg"), withMajor()))
-						if _, ok := m.Deps[modPath(j)]; !ok {
-							m.Deps[modPath(j)] = rapid.SampledFrom(mods[j].vers).Draw(t, "dver")
+		for _, mj := range mods[i] {
+			for _, v := range mj.vers {
+				m := ModVer{Path: mj.path, Version: v, Deps: map[string]string{}, Default: map[string]bool{}}
+				for _, pn := range mj.pkgs {
+					p := Pkg{Name: pn}
+					for j := i + 1; j < nm; j++ {
+						if rapid.IntRange(0, 2).Draw(t, "imp") != 0 {
+							continue
 						}
+						tj := mods[j][rapid.IntRange(0, len(mods[j])-1).Draw(t, "imajor")]
+						if _, ok := m.Deps[tj.path]; !ok {
+							m.Deps[tj.path] = rapid.SampledFrom(tj.vers).Draw(t, "dver")
+						}
+						// an import without major version needs an unambiguous or default major in this module file
+						withMajor := rapid.IntRange(0, 3).Draw(t, "major") > 0
+						if excl && len(mods[j]) > 1 {
+							// known finding F63: an import without major version inside a dependency is resolved
+							// with the main module's defaults when the dependency's own requirements are pruned
+							// out of the module graph; such imports are only generated for single-major bases
+							withMajor = true
+						}
+						if !withMajor {
+							other := false
+							for dp := range m.Deps {
+								if b, _, _ := strings.Cut(dp, "@"); b == strings.Split(tj.path, "@")[0] && dp != tj.path {
+									other = true
+								}
+							}
+							if other || len(mods[j]) > 1 {
+								// make it explicit: list it as the default major (and make sure no other is)
+								for dp := range m.Default {
+									if b, _, _ := strings.Cut(dp, "@"); b == strings.Split(tj.path, "@")[0] {
+										withMajor = true // another major already is the default: keep this import versioned
+									}
+								}
+								if !withMajor {
+									m.Default[tj.path] = true
+								}
+							}
+						}
+						p.Imports = append(p.Imports, importPath2(tj.path, rapid.SampledFrom(tj.pkgs).Draw(t, "ipkg"), withMajor))
 					}
+					m.Pkgs = append(m.Pkgs, p)
 				}
-				m.Pkgs = append(m.Pkgs, p)
+				c.Mods = append(c.Mods, m)
 			}
-			c.Mods = append(c.Mods, m)
 		}
 	}
 	np := rapid.IntRange(1, 2).Draw(t, "nmain")
 	for k := 0; k < np; k++ {
 		p := Pkg{Name: fmt.Sprintf("q%d", k)}
 		for j := 0; j < nm; j++ {
-			if rapid.IntRange(0, 1).Draw(t, "mimp") == 0 {
-				p.Imports = append(p.Imports, importPath(modPath(j), rapid.SampledFrom(mods[j].pkgs).Draw(t, "mpkg"), withMajor()))
+			for _, tj := range mods[j] {
+				if rapid.IntRange(0, 1).Draw(t, "mimp") == 0 {
+					// the main module imports without major version only when the base has a single major
+					withMajor := len(mods[j]) > 1 || rapid.IntRange(0, 4).Draw(t, "mmajor") > 0
+					p.Imports = append(p.Imports, importPath2(tj.path, rapid.SampledFrom(tj.pkgs).Draw(t, "mpkg"), withMajor))
+				}
 			}
 		}
 		c.MainPkgs = append(c.MainPkgs, p)
 	}
 	// existing deps: some right, some stale, some missing
 	for j := 0; j < nm; j++ {
-		if rapid.IntRange(0, 2).Draw(t, "hasdep") == 0 {
-			c.MainDeps[modPath(j)] = rapid.SampledFrom(mods[j].vers).Draw(t, "mdver")
+		for _, tj := range mods[j] {
+			if rapid.IntRange(0, 2).Draw(t, "hasdep") == 0 {
+				c.MainDeps[tj.path] = rapid.SampledFrom(tj.vers).Draw(t, "mdver")
+			}
 		}
 	}
 	if rapid.IntRange(0, 15).Draw(t, "bad") == 0 {
@@ -451,6 +526,14 @@ func gen(t *rapid.T) Case {
 		c.MainPkgs[0].Imports = append(c.MainPkgs[0].Imports, rapid.SampledFrom([]string{"ex.com/m0/nosuchpkg@v0", "nosuch.org/x@v0"}).Draw(t, "badimp"))
 	}
 	return c
+}
+
+func importPath2(mod, pkg string, withMajor bool) string {
+	base, major, _ := strings.Cut(mod, "@")
+	if withMajor {
+		return base + "/" + pkg + "@" + major
+	}
+	return base + "/" + pkg
 }
 
 func TestTidy(t *testing.T) {
